@@ -25,14 +25,14 @@ pub fn def() -> CheckDef {
     }
 }
 
-const KINDS: [&str; 6] = ["immutable", "mutable", "mutable+salt", "announce_peer(port)", "announce_peer(implied)", "announce_signed_peer"];
+const KINDS: [&str; 7] = ["immutable", "mutable", "mutable+salt", "announce_peer(port)", "announce_peer(implied)", "announce_signed_peer", "immutable(1000 bytes)"];
 
 fn info(tier: Tier) -> CheckInfo {
     CheckInfo {
         id: "C01",
         level: "model_checking",
         rule: format!(
-            "Tier {}: networks of S in 1..{} real server nodes + C in 0..{} real client nodes built by real joins (every join order of the id classes), every ordered (writer, reader) pair of distinct nodes, six data kinds (immutable; mutable without and with salt; announce_peer explicit and implied port; announce_signed_peer), public and private IP plan. After the put returned Ok, every crash set X with reader not in X, an acknowledging node other than the reader left alive and the reader still knowing a live node is applied, then the reader looks the key up. Variants: the reader already has a lookup for the key in flight (issued when the put starts, kept open by a node crashed beforehand); the reader looks up 60 s after the put; the reader issues the lookup twice 100 ms apart; the reader already looked the key up (a completed miss) right after it joined and before the later nodes joined, so its lookup cache names only early nodes, and walked to an unrelated id after everybody joined; the reader has its own put for the same key in flight (an older item of the same mutable key / its own announcement), started 30 ms or 100 ms before the lookup{}. Oracle: the reader's result contains the exact bytes / an item equal in key, seq, value, salt / the writer's IP with the announced (or source) port / the signed announcement; the acknowledging set is read from the datagram log. Puts that do not return Ok are non-instances.",
+            "Tier {}: networks of S in 1..{} real server nodes + C in 0..{} real client nodes built by real joins (every join order of the id classes), every ordered (writer, reader) pair of distinct nodes, six data kinds (immutable; mutable without and with salt; announce_peer explicit and implied port; announce_signed_peer), plus the largest legal immutable value (1000 bytes) on 20-server shapes made a full mesh first, where every get answer also lists 19-20 nodes, public and private IP plan. After the put returned Ok, every crash set X with reader not in X, an acknowledging node other than the reader left alive and the reader still knowing a live node is applied, then the reader looks the key up. Variants: the reader already has a lookup for the key in flight (issued when the put starts, kept open by a node crashed beforehand); the reader looks up 60 s after the put; the reader issues the lookup twice 100 ms apart; the reader already looked the key up (a completed miss) right after it joined and before the later nodes joined, so its lookup cache names only early nodes, and walked to an unrelated id after everybody joined; the reader has its own put for the same key in flight (an older item of the same mutable key / its own announcement), started 30 ms or 100 ms before the lookup{}. Oracle: the reader's result contains the exact bytes / an item equal in key, seq, value, salt / the writer's IP with the announced (or source) port / the signed announcement; the acknowledging set is read from the datagram log. Puts that do not return Ok are non-instances.",
             tier.name(),
             if tier.is_quick() { 3 } else { 4 },
             if tier.is_quick() { 1 } else { 2 },
@@ -60,7 +60,7 @@ struct Cfg {
     /// 4: the reader already looked the key up (a miss, completed) right after it joined, before
     /// the later nodes joined, so it holds a cached set of responders for the key;
     /// 5, 6: the reader has its own put for the same key in flight (started after the crash,
-    /// 30 ms / 100 ms before the lookup)
+    /// 30 ms / 100 ms before the lookup); 7: plain, on a network made a full mesh first
     variant: usize,
 }
 
@@ -91,6 +91,11 @@ fn node_ip(i: usize, public: bool) -> [u8; 4] {
 }
 
 const IMM: &[u8] = b"c01 immutable value";
+/// The largest immutable value BEP44 allows: a get answer carrying it plus 15-20 closer nodes is
+/// the largest datagram a reader legitimately receives.
+fn big_imm() -> Vec<u8> {
+    (0..1000u32).map(|i| (i * 11 + 5) as u8).collect()
+}
 const SALT: &[u8] = b"c01-salt";
 const INFO: Id20 = [0xC1; 20];
 
@@ -135,6 +140,16 @@ fn build(cfg: &Cfg, chooser: Chooser, track: bool) -> Net {
         }
     }
     w.run_for(2 * SEC);
+    if cfg.variant == 7 {
+        // full mesh: every node walks to a few ids once everybody has joined, so that every
+        // routing table knows (nearly) everybody and every get answer lists as many nodes as
+        // the protocol allows
+        for round in 0..3u8 {
+            let calls: Vec<usize> = nodes.iter().map(|n| w.call_find_node(*n, [0x11u8.wrapping_mul(round + 1) ^ 0x5A; 20].into())).collect();
+            let h = w.now + 60 * SEC;
+            w.run_calls(&calls, h);
+        }
+    }
     if cfg.variant == 4 {
         // the reader walks towards an unrelated id once everybody has joined, so that its
         // routing table (not its lookup cache for the key) knows the later nodes too
@@ -152,7 +167,8 @@ fn issue_put(w: &mut World, node: usize, kind: usize) -> usize {
         2 => w.call_put_mutable(node, MutableItem::new(&krpc::signing_key(0xC1), b"c01 salted", 9, Some(SALT)), None),
         3 => w.call_announce_peer(node, INFO.into(), Some(4242)),
         4 => w.call_announce_peer(node, INFO.into(), None),
-        _ => w.call_announce_signed_peer(node, INFO.into(), krpc::signing_key(0xC2)),
+        5 => w.call_announce_signed_peer(node, INFO.into(), krpc::signing_key(0xC2)),
+        _ => w.call_put_immutable(node, big_imm()),
     }
 }
 
@@ -165,7 +181,8 @@ fn issue_own_put(w: &mut World, node: usize, kind: usize) -> usize {
         2 => w.call_put_mutable(node, MutableItem::new(&krpc::signing_key(0xC1), b"c01 older salted", 8, Some(SALT)), None),
         3 => w.call_announce_peer(node, INFO.into(), Some(5151)),
         4 => w.call_announce_peer(node, INFO.into(), None),
-        _ => w.call_announce_signed_peer(node, INFO.into(), krpc::signing_key(0xC3)),
+        5 => w.call_announce_signed_peer(node, INFO.into(), krpc::signing_key(0xC3)),
+        _ => w.call_put_immutable(node, big_imm()),
     }
 }
 
@@ -176,7 +193,8 @@ fn issue_get(w: &mut World, node: usize, kind: usize) -> usize {
         1 => w.call_get_mutable(node, pk, None, None),
         2 => w.call_get_mutable(node, pk, Some(SALT.to_vec()), None),
         3 | 4 => w.call_get_peers(node, INFO.into()),
-        _ => w.call_get_signed_peers(node, INFO.into()),
+        5 => w.call_get_signed_peers(node, INFO.into()),
+        _ => w.call_get_immutable(node, krpc::immutable_target(&big_imm()).into()),
     }
 }
 
@@ -184,6 +202,7 @@ fn found(r: Option<&CallResult>, kind: usize, writer_addr: SocketAddrV4) -> bool
     let pk = krpc::signing_key(0xC1).verifying_key().to_bytes();
     match (kind, r) {
         (0, Some(CallResult::Bytes(Some(v)))) => v == IMM,
+        (6, Some(CallResult::Bytes(Some(v)))) => *v == big_imm(),
         (1, Some(CallResult::Mutables(items))) => items.iter().any(|i| i.key() == &pk && i.seq() == 7 && i.value() == b"c01 mutable" && i.salt().is_none()),
         (2, Some(CallResult::Mutables(items))) => items.iter().any(|i| i.key() == &pk && i.seq() == 9 && i.value() == b"c01 salted" && i.salt() == Some(SALT)),
         (3, Some(CallResult::Peers(b))) => b.iter().flatten().any(|p| *p == SocketAddrV4::new(*writer_addr.ip(), 4242)),
@@ -310,7 +329,7 @@ fn scenario(cfg: &Cfg, chooser: Chooser, faults: bool, crash_index: Option<usize
             } else if !found(r, cfg.kind, writer_addr) {
                 let left: Vec<usize> = ackers.iter().filter(|a| **a != cfg.reader && !x.contains(a)).cloned().collect();
                 problems.push((
-                    format!("value-not-found/{}/{}", KINDS[cfg.kind], ["plain", "reader-lookup-in-flight", "lookup-60s-later", "second-caller-joins", "reader-looked-up-before-later-joins", "reader-put-in-flight-30ms", "reader-put-in-flight-100ms"][cfg.variant]),
+                    format!("value-not-found/{}/{}", KINDS[cfg.kind], ["plain", "reader-lookup-in-flight", "lookup-60s-later", "second-caller-joins", "reader-looked-up-before-later-joins", "reader-put-in-flight-30ms", "reader-put-in-flight-100ms", "full-mesh"][cfg.variant]),
                     format!("put Ok acknowledged by nodes {ackers:?}; crashed {x:?}; acknowledging nodes still alive {left:?}; the reader got {}", match r {
                         Some(CallResult::Bytes(b)) => format!("bytes={}", b.is_some()),
                         Some(CallResult::Mutables(m)) => format!("{} items", m.len()),
@@ -416,6 +435,19 @@ fn run(tier: Tier, shard: usize, nshards: usize, _seed: u64) -> Partial {
             record(c, Some(ci), &[], &o, &mut out);
         }
     }
+    {
+        // a network large enough that a get answer lists 15+ closer nodes next to the value
+        // (20 servers with and without a client, the small and the largest immutable value)
+        let shapes: Vec<(usize, usize, usize)> = [(20usize, 1usize, 0usize), (20, 1, 6), (20, 0, 6)].to_vec();
+        for (bi, (s, c, kind)) in shapes.iter().enumerate() {
+            if bi % nshards != shard {
+                continue;
+            }
+            let cfg = Cfg { s: *s, c: *c, perm: 0, writer: if *c > 0 { *s } else { 3 }, reader: 7, kind: *kind, public: bi % 2 == 0, variant: 7 };
+            let (_, o) = scenario(&cfg, Chooser::default_run(), false, Some(0), false);
+            record(&cfg, Some(0), &[], &o, &mut out);
+        }
+    }
     if !tier.is_quick() {
         // latency deviations on S=3, C=1 (no crash, and the first crash set)
         let sel: Vec<&Cfg> = cfgs.iter().filter(|c| c.s == 3 && c.c == 1 && c.perm == 0 && c.variant == 0 && c.public).collect();
@@ -435,8 +467,8 @@ fn run(tier: Tier, shard: usize, nshards: usize, _seed: u64) -> Partial {
         // fixed large shapes
         let bigs = [(20usize, 0usize), (20, 30)];
         for (bi, (s, c)) in bigs.iter().enumerate() {
-            for kind in 0..6 {
-                if (bi * 6 + kind) % nshards != shard {
+            for kind in 0..7 {
+                if (bi * 7 + kind) % nshards != shard {
                     continue;
                 }
                 let cfg = Cfg { s: *s, c: *c, perm: 0, writer: if *c > 0 { *s + 1 } else { 3 }, reader: if *c > 0 { *s + 2 } else { 7 }, kind, public: kind % 2 == 0, variant: 0 };
